@@ -45,22 +45,25 @@ pub fn mode_args(cfg: &Value, a: &mut Vec<String>) {
     }
 }
 
+pub fn depth_args(cfg: &Value, args: &mut Vec<String>) {
+    if cfg["min"].as_u64().unwrap_or(0) > 0 {
+        args.push("-mindepth".into());
+        args.push(cfg["min"].as_u64().unwrap().to_string());
+    }
+    if cfg["max"].as_u64().unwrap_or(NOMAX) < NOMAX {
+        args.push("-maxdepth".into());
+        args.push(cfg["max"].as_u64().unwrap().to_string());
+    }
+    if cfg["depth"].as_bool().unwrap_or(false) {
+        args.push("-depth".into());
+    }
+}
+
 impl Prop for PPrintf {
     fn run(&mut self, input: &Value) -> Value {
         let dir = fresh_case_dir(&self.sb, &mut self.counter);
         let tree = parse_tree(&input["tree"]);
         materialize(&dir, &tree);
-        // owners, if the input prescribes them
-        for (i, n) in tree.iter().enumerate() {
-            if let (Some(u), Some(g)) = (n.extra.get("uid").and_then(|x| x.as_u64()), n.extra.get("gid").and_then(|x| x.as_u64())) {
-                if (u != 0 || g != 0) && n.kind != "l" {
-                    let c = std::ffi::CString::new(dir.join(node_path(&tree, i + 1)).as_os_str().as_bytes()).unwrap();
-                    unsafe {
-                        libc::chown(c.as_ptr(), u as u32, g as u32);
-                    }
-                }
-            }
-        }
         let attrs = measure(&dir, &tree);
         let cfg = &input["cfg"];
         let mut args: Vec<String> = vec![];
@@ -68,17 +71,7 @@ impl Prop for PPrintf {
         for r in arr(&input["roots"]) {
             args.push(json_to_string(&r["spell"]));
         }
-        if cfg["min"].as_u64().unwrap_or(0) > 0 {
-            args.push("-mindepth".into());
-            args.push(cfg["min"].as_u64().unwrap().to_string());
-        }
-        if cfg["max"].as_u64().unwrap_or(NOMAX) < NOMAX {
-            args.push("-maxdepth".into());
-            args.push(cfg["max"].as_u64().unwrap().to_string());
-        }
-        if cfg["depth"].as_bool().unwrap_or(false) {
-            args.push("-depth".into());
-        }
+        depth_args(cfg, &mut args);
         args.push("-sorted".into());
         args.push("-printf".into());
         args.push(cps_to_string(&input["fmt"]));
